@@ -73,37 +73,7 @@ def run(ctx, chk, tier):
         chk.hold("R12.3", "explicit-names", "explicit group_names are kept as given")
     else:
         chk.violation("R12.3", INITQ, "explicit-names", [show(o.value.attrs.get("groups"), 80) for o in outs], "asarray(group_names) unchanged", ctx.where(INITQ))
-    # ---------------- from_labels
-    labels, scores, groups, pl = (Sym(n, ("param", "array", "notnone")) for n in ("labels", "scores", "grp", "pos_label"))
-    seen = []
-
-    def stub(ev_, fi, bound):
-        seen.append(bound)
-        return Const(None)
-
-    ev.stubs[INITQ] = stub
-    try:
-        fl = ev.getattr(ev.global_value(ctx.db.module("score_analysis.group_scores"), "GroupScores"), "from_labels")
-        ctx.explore(lambda: ev.call(fl, [labels, scores, groups], {"pos_label": pl, "score_class": Const("neg"), "equal_class": Const("neg")}), chk)
-    finally:
-        ev.stubs.pop(INITQ, None)
-    flq = GROUP + ".from_labels"
-    if len(seen) != 1:
-        chk.unknown("R12.1", "from_labels constructs %d objects" % len(seen))
-    else:
-        b = seen[0]
-        for cls_, op in (("pos", "=="), ("neg", "!=")):
-            m = compare(op, labels, pl)
-            ok = same(b.get(cls_), App("getitem", (scores, m))) and same(b.get(cls_ + "_groups"), App("getitem", (groups, m)))
-            if ok:
-                chk.hold("R12.1", "from_labels:" + cls_, "%s = scores[labels %s pos_label], %s_groups = groups[same mask]" % (cls_, op, cls_))
-            else:
-                chk.violation("R12.1", flq, "from_labels:" + cls_, "%s=%s groups=%s" % (cls_, show(b.get(cls_), 100), show(b.get(cls_ + "_groups"), 100)),
-                              "scores and groups selected by the same mask labels %s pos_label" % op, ctx.where(flq))
-        if b.get("score_class") == Const("neg") and b.get("equal_class") == Const("neg"):
-            chk.hold("R12.1", "from_labels:flags", "score_class and equal_class forwarded", nontrivial=False)
-        else:
-            chk.violation("R12.1", flq, "from_labels:flags", "%s/%s" % (show(b.get("score_class")), show(b.get("equal_class"))), "forwarded", ctx.where(flq))
+    from_labels_rule(ctx, chk)
     # ---------------- bootstrap_sample paths
     outs = c11.sample_outcomes(ctx, chk, flags=("neg", "pos"), classes=(GROUP,))
     nsites = 0
@@ -146,7 +116,44 @@ def run(ctx, chk, tier):
         chk.unknown("R12.1", "only %d sampling paths with a GroupScores construction analysed" % nsites)
     getitem_rule(ctx, chk)
     group_cm_rule(ctx, chk)
+    groupwise_rule(ctx, chk)
+    cache_rule(ctx, chk)
     rest(ctx, chk)
+
+
+def from_labels_rule(ctx, chk):
+    """R12.1 from_labels: scores and group labels of each class are selected by one mask (labels ==/!= pos_label)."""
+    ev = ctx.ev
+    labels, scores, groups, pl = (Sym(n, ("param", "array", "notnone")) for n in ("labels", "scores", "grp", "pos_label"))
+    seen = []
+
+    def stub(ev_, fi, bound):
+        seen.append(bound)
+        return Const(None)
+
+    ev.stubs[INITQ] = stub
+    try:
+        fl = ev.getattr(ev.global_value(ctx.db.module("score_analysis.group_scores"), "GroupScores"), "from_labels")
+        ctx.explore(lambda: ev.call(fl, [labels, scores, groups], {"pos_label": pl, "score_class": Const("neg"), "equal_class": Const("neg")}), chk)
+    finally:
+        ev.stubs.pop(INITQ, None)
+    flq = GROUP + ".from_labels"
+    if len(seen) != 1:
+        chk.unknown("R12.1", "from_labels constructs %d objects" % len(seen))
+    else:
+        b = seen[0]
+        for cls_, op in (("pos", "=="), ("neg", "!=")):
+            m = compare(op, labels, pl)
+            ok = same(b.get(cls_), App("getitem", (scores, m))) and same(b.get(cls_ + "_groups"), App("getitem", (groups, m)))
+            if ok:
+                chk.hold("R12.1", "from_labels:" + cls_, "%s = scores[labels %s pos_label], %s_groups = groups[same mask]" % (cls_, op, cls_))
+            else:
+                chk.violation("R12.1", flq, "from_labels:" + cls_, "%s=%s groups=%s" % (cls_, show(b.get(cls_), 100), show(b.get(cls_ + "_groups"), 100)),
+                              "scores and groups selected by the same mask labels %s pos_label" % op, ctx.where(flq))
+        if b.get("score_class") == Const("neg") and b.get("equal_class") == Const("neg"):
+            chk.hold("R12.1", "from_labels:flags", "score_class and equal_class forwarded", nontrivial=False)
+        else:
+            chk.violation("R12.1", flq, "from_labels:flags", "%s/%s" % (show(b.get("score_class")), show(b.get("equal_class"))), "forwarded", ctx.where(flq))
 
 
 def getitem_rule(ctx, chk):
@@ -222,6 +229,114 @@ def group_cm_rule(ctx, chk):
                       "per-group matrices stacked on a new leading axis in the order of self.groups", ctx.where(gq))
 
 
+def groupwise_rule(ctx, chk):
+    """R12.3 groupwise(metric)(obj)[i] = metric(obj[obj.groups[i]]): rows in the order of obj.groups, stacked on a new leading axis."""
+    ev = ctx.ev
+    gwq = "score_analysis.group_scores.groupwise"
+    kwv = Sym("kwarg", ("param", "notnone"))
+
+    def gistub(ev_, fi, bound):
+        o = Obj(ctx.db.cls(SCORES), label="groupobj")
+        o.attrs["__group__"] = bound["group"]
+        return o
+
+    def mstub(ev_, fi, bound):
+        s = bound["self"]
+        return App("METRIC", (s.attrs.get("__group__", Const("?")) if isinstance(s, Obj) else Const("?"), bound.get("threshold", Const("?"))))
+
+    for form in ("name", "callable"):
+        ev.stubs[GIQ] = gistub
+        ev.stubs[SCORES + ".tpr"] = mstub
+        try:
+            def thunk():
+                gw = ev.global_value(ctx.db.module("score_analysis.group_scores"), "groupwise")
+                m = Const("tpr") if form == "name" else ev.getattr(ev.global_value(ctx.db.module("score_analysis.scores"), "Scores"), "tpr")
+                f = ev.call(gw, [m], {})
+                return ev.call(f, [ctx.scores_obj("neg", "pos", GROUP)], {"threshold": kwv})
+            outs = ctx.explore(thunk, chk)
+        finally:
+            ev.stubs.pop(GIQ, None)
+            ev.stubs.pop(SCORES + ".tpr", None)
+        rets = returns(outs)
+        ok, got = False, "?"
+        if len(rets) == 1 and len(outs) == 1:
+            m = rets[0].value
+            got = show(m, 200) if hasattr(m, "key") else repr(m)
+            if isinstance(m, App) and m.fn == "stack" and m.kwd("axis") == Const(0):
+                inner = m.args[0]
+                if isinstance(inner, App) and inner.fn == "forall" and len(inner.args[0].items) == 1:
+                    el, body = inner.args[0].items[0], inner.args[1]
+                    ok = isinstance(el, App) and el.fn == "elem" and el.args[0] == GROUPS and body == App("METRIC", (el, kwv))
+        else:
+            got = "%d paths (%d returning)" % (len(outs), len(rets))
+        if ok:
+            chk.hold("R12.3", "groupwise:" + form, "groupwise(metric)(obj, **kw) = stack([metric(obj[g], **kw) for g in obj.groups], axis=0)")
+        else:
+            chk.violation("R12.3", gwq, "groupwise:" + form, got, "metric applied group by group in the order of obj.groups, keyword arguments forwarded, stacked on a new leading axis",
+                          ctx.where(gwq))
+
+
+def cache_rule(ctx, chk):
+    """R12.6 cache coherence over the history index -> derive -> index: an object derived from one whose per-group cache is filled
+    starts with an empty cache, or with entries that are the derived object's own per-group extraction."""
+    ev = ctx.ev
+    g = Sym("group", ("param_scalar", "notnone"))
+    cases = [("swap", None)] + [("bootstrap_sample[%s,%s]" % (m, s), (m, s)) for m, s, _ in c11.GROUP_CONFIGS]
+    n = 0
+    for name, cfg in cases:
+        def thunk():
+            obj = ctx.scores_obj("neg", "pos", GROUP)
+            ev.call(ctx.method(obj, "__getitem__"), [g], {})
+            if not (isinstance(obj.attrs.get("_grouped_scores"), Dct) and g in obj.attrs["_grouped_scores"].items):
+                raise_unknown.append(name)
+            if cfg is None:
+                return ev.call(ctx.method(obj, "swap"), [], {})
+            return ev.call(ctx.method(obj, "bootstrap_sample"), [], {"config": c11.make_config(ctx, cfg[0], cfg[1], False, None)})
+        raise_unknown = []
+        ev.assume = [App("in", (g, GROUPS))]
+        try:
+            outs = ctx.explore(thunk, chk)
+        finally:
+            ev.assume = []
+        q = GROUP + "." + name.split("[")[0]
+        if raise_unknown:
+            chk.unknown("R12.6", "%s: the per-group cache of the source was not filled by indexing (cache no longer a dict attribute _grouped_scores?)" % name)
+            continue
+        for o in returns(outs):
+            d = o.value
+            if not isinstance(d, Obj):
+                chk.unknown("R12.6", "%s: derived value is not an object" % name)
+                continue
+            c = d.attrs.get("_grouped_scores")
+            n += 1
+            if c is None:
+                chk.hold("R12.6", name + ":" + pc_text(o)[:60], "derived object has no per-group cache", nontrivial=False)
+                continue
+            if not isinstance(c, Dct) or c.unknown:
+                chk.unknown("R12.6", "%s: per-group cache of the derived object not understood" % name)
+                continue
+            bad = []
+            for k, v in c.items.items():
+                want = {"pos": App("getitem", (d.attrs.get("pos"), compare("==", d.attrs.get("pos_groups"), k))),
+                        "neg": App("getitem", (d.attrs.get("neg"), compare("==", d.attrs.get("neg_groups"), k))),
+                        "score_class": d.attrs.get("score_class"), "equal_class": d.attrs.get("equal_class")}
+                if not isinstance(v, Obj):
+                    bad.append((k, "entry is not a Scores object"))
+                    continue
+                for a, w in want.items():
+                    gv = v.attrs.get(a)
+                    if gv is None or w is None or not same(gv, w):
+                        bad.append((k, "%s = %s, the derived object's own extraction is %s" % (a, show(gv, 80) if gv is not None else "unset", show(w, 80) if w is not None else "?")))
+            inst = "%s:%s" % (name, pc_text(o)[:60])
+            if bad:
+                chk.violation("R12.6", q, name + ":stale-cache", "; ".join("key %s: %s" % (show(k, 40), why) for k, why in bad[:3]),
+                              "a derived object starts with an empty per-group cache (or entries extracted from its own arrays)", ctx.where(q))
+            else:
+                chk.hold("R12.6", inst, "derived object's per-group cache: %d entries, all its own" % len(c.items))
+    if n < 10:
+        chk.unknown("R12.6", "only %d derived objects analysed" % n)
+
+
 def rest(ctx, chk):
     ev = ctx.ev
     # ---------------- R12.4 by-group uses the non-stratified sampler per group
@@ -234,7 +349,12 @@ def rest(ctx, chk):
             hit += 1
             bl = e["bound"].get("by_label")
             recv = e["bound"].get("self")
-            if bl == Const(False) and isinstance(recv, Obj) and recv.cls.qualname == SCORES:
+            sp = e["bound"].get("single_pass")
+            if "dynamic" in label and sp != Const(False):
+                chk.violation("R12.4", GROUP + "._sampling_method", label + ":dynamic-resolution", "single_pass=%s when %s" % (show(sp) if sp is not None else "?", pc_text(o)[:120]),
+                              "dynamic sampling resolves to replacement under by-group stratification (single-pass multiplicities do not preserve a group's sample count)",
+                              ctx.where(GROUP + "._sampling_method"))
+            elif bl == Const(False) and isinstance(recv, Obj) and recv.cls.qualname == SCORES:
                 chk.hold("R12.4", label, "per-group Scores._sample_indices(by_label=False): group size preserved by the count algebra (R11.3)")
             else:
                 chk.violation("R12.4", BSQ, label + ":per-group-sampler", "by_label=%s on %s" % (show(bl) if bl is not None else "?", recv),
